@@ -196,7 +196,11 @@ Fixpoint embed_array (x : sfix) (n : nat) (bs : list Z) : list ival :=
   | O => []
   | S m => embed_fix x (firstn (fsize (erase_fix x)) bs) :: embed_array x m (skipn (fsize (erase_fix x)) bs)
   end.
-Lemma embed_fix_array n x bs : embed_fix (XArray n x) bs = IVList (embed_array x n bs). Proof. reflexivity. Qed.
+Lemma embed_fix_array n x bs : embed_fix (XArray n x) bs = IVList (embed_array x n bs).
+Proof.
+  cbn [embed_fix]. f_equal. revert bs. induction n as [|n IH]; intros bs; cbn [embed_array]; auto.
+  now rewrite IH.
+Qed.
 Lemma embed_fix_struct fs bs : embed_fix (XStruct fs) bs = IVStruct (embed_fixes fs bs). Proof. reflexivity. Qed.
 
 Fixpoint embeds (fs : list sty) (vs : list val) : list ival :=
@@ -226,11 +230,16 @@ Fixpoint stys_ok (last : bool) (fs : list sty) : bool :=
 Fixpoint variants_ok (last : bool) (vs : list (Z * option sty)) : bool :=
   match vs with [] => true | (_, None) :: r => variants_ok last r | (_, Some t) :: r => sty_ok last t && variants_ok last r end.
 Lemma sty_ok_struct last sized fs : sty_ok last (SStruct sized fs) = forallb fix_ok sized && stys_ok last fs.
-Proof. reflexivity. Qed.
+Proof.
+  cbn [sty_ok]. f_equal. induction fs as [|f r IH]; auto.
+  destruct r as [|g r]; [reflexivity|]. cbn [stys_ok] in *. now rewrite <- IH.
+Qed.
 Lemma sty_ok_enum last vs :
   sty_ok last (SEnum vs) =
   distinct (map fst vs) && forallb (fun dv => (0 <=? fst dv) && (fst dv <? 256)) vs && variants_ok last vs.
-Proof. reflexivity. Qed.
+Proof.
+  cbn [sty_ok]. f_equal. induction vs as [|[d [t|]] r IH]; cbn [variants_ok]; auto. now rewrite IH.
+Qed.
 
 (* induction principles of the nested inductives *)
 Section SfixInd.
@@ -284,3 +293,687 @@ Section StyInd.
                      end) vs)
     end.
 End StyInd.
+
+(* ---------------------------------------------------------------------------------------------- *)
+(* fixed-size leaves                                                                                *)
+Lemma prim_size_cases k n : prim_size k = Some n ->
+  (n = 1 \/ n = 2 \/ n = 4 \/ n = 8 \/ n = 16 \/ n = 32) /\ (k =? P_STRING) = false /\ (k =? P_REMAINING) = false.
+Proof.
+  unfold prim_size, P_STRING, P_REMAINING. intros H.
+  repeat match type of H with context [?a =? ?b] => destruct (a =? b) eqn:?; cbn [orb] in H end;
+  inversion H; subst; zb; repeat split; try lia; apply Z.eqb_neq; lia.
+Qed.
+
+Lemma fsize_prim k n : prim_size k = Some n -> Z.of_nat (fsize (erase_fix (XPrim k))) = n.
+Proof.
+  intros H. destruct (prim_size_cases _ _ H) as [Hn _]. cbn [erase_fix]. rewrite H.
+  destruct (k =? P_BOOL) eqn:E; cbn [fsize].
+  - apply Z.eqb_eq in E. subst k. cbn in H. now inversion H.
+  - lia.
+Qed.
+
+Lemma split_at {A} m (bs : list A) : (m <= length bs)%nat ->
+  bs = firstn m bs ++ skipn m bs /\ length (firstn m bs) = m /\ length (skipn m bs) = (length bs - m)%nat.
+Proof. intros. rewrite firstn_skipn, firstn_length, skipn_length. repeat split; lia. Qed.
+
+Definition fix_spec (x : sfix) : Prop :=
+  forall defs0 t defs1, fix_ok x = true -> fix_to_idl x defs0 = (t, defs1) ->
+    ext defs0 defs1 /\
+    exists fuel, forall defs2, ext defs1 defs2 -> forall f, (fuel <= f)%nat ->
+      forall bs rest, length bs = fsize (erase_fix x) -> fvalid (erase_fix x) bs = true ->
+        dec f defs2 t (bs ++ rest) = Some (embed_fix x bs, rest).
+
+Lemma fsizes_repeat c n : fsizes (repeat c n) = (n * fsize c)%nat.
+Proof. induction n as [|n IH]; cbn [repeat fsizes]; lia. Qed.
+
+Lemma rep_array x (g : list Z -> dres) :
+  (forall chunk rest, length chunk = fsize (erase_fix x) -> fvalid (erase_fix x) chunk = true ->
+     g (chunk ++ rest) = Some (embed_fix x chunk, rest)) ->
+  forall n k bs rest, (n <= k)%nat -> length bs = (n * fsize (erase_fix x))%nat ->
+    fvalids (repeat (erase_fix x) n) bs = true ->
+    rep k g (Z.of_nat n) (bs ++ rest) = Some (embed_array x n bs, rest).
+Proof.
+  intros Hg. induction n as [|n IH]; intros k bs rest Hk Hl Hv.
+  - destruct bs; [|cbn in Hl; lia]. destruct k; reflexivity.
+  - destruct k as [|k]; [lia|]. cbn [rep].
+    destruct (Z.of_nat (S n) <=? 0) eqn:E; [zb; lia|].
+    set (sz := fsize (erase_fix x)) in *.
+    destruct (split_at sz bs ltac:(lia)) as (Hs & H1 & H2).
+    cbn [repeat fvalids] in Hv. apply andb_true_iff in Hv as [Hv1 Hv2]. fold sz in Hv1, Hv2.
+    rewrite Hs, <- app_assoc, (Hg _ _ H1 Hv1).
+    replace (Z.of_nat (S n) - 1) with (Z.of_nat n) by lia.
+    rewrite (IH k _ rest ltac:(lia) ltac:(rewrite H2; lia) Hv2).
+    cbn [embed_array]. fold sz. now rewrite <- Hs.
+Qed.
+
+Lemma fixes_spec fs : Forall fix_spec fs ->
+  forall defs0 ts defs1, forallb fix_ok fs = true -> fixes_to_idl fs defs0 = (ts, defs1) ->
+    ext defs0 defs1 /\
+    exists fuel, forall defs2, ext defs1 defs2 -> forall f, (fuel <= f)%nat ->
+      forall bs rest, length bs = fsizes (map erase_fix fs) -> fvalids (map erase_fix fs) bs = true ->
+        seq (map (dec f defs2) ts) (bs ++ rest) = Some (embed_fixes fs bs, rest).
+Proof.
+  induction 1 as [|x fs Hx _ IH]; intros defs0 ts defs1 Hok Ht.
+  - cbn [fixes_to_idl] in Ht. inversion Ht; subst. split; [apply ext_refl|].
+    exists O. intros defs2 _ f _ bs rest Hl _. destruct bs; [|cbn in Hl; lia]. reflexivity.
+  - cbn [fixes_to_idl] in Ht. cbn [forallb] in Hok. apply andb_true_iff in Hok as [Hok1 Hok2].
+    destruct (fix_to_idl x defs0) as [t d1] eqn:E1.
+    destruct (fixes_to_idl fs d1) as [ts' d2] eqn:E2. inversion Ht; subst; clear Ht.
+    destruct (Hx _ _ _ Hok1 E1) as (He1 & F1 & H1).
+    destruct (IH _ _ _ Hok2 E2) as (He2 & F2 & H2).
+    split; [eapply ext_trans; eauto|].
+    exists (Nat.max F1 F2). intros defs2 He f Hf bs rest Hl Hv.
+    cbn [map fsizes fvalids] in *. apply andb_true_iff in Hv as [Hv1 Hv2].
+    set (sz := fsize (erase_fix x)) in *.
+    destruct (split_at sz bs ltac:(lia)) as (Hs & L1 & L2).
+    cbn [seq]. rewrite Hs at 1. rewrite <- app_assoc.
+    rewrite (H1 defs2 (ext_trans _ _ _ He2 He) f ltac:(lia) _ _ L1 Hv1).
+    rewrite (H2 defs2 He f ltac:(lia) _ rest ltac:(rewrite L2; lia) Hv2).
+    cbn [embed_fixes]. reflexivity.
+Qed.
+
+Lemma find_disc_unit b ds :
+  existsb (Z.eqb b) ds = true -> find_disc b (map (fun d => ([d], @None ity)) ds) = Some None.
+Proof.
+  induction ds as [|d ds IH]; cbn [existsb map find_disc le_decode]; [discriminate|].
+  intros H. replace (d + 256 * 0) with d by lia.
+  destruct (d =? b) eqn:E; auto. rewrite Z.eqb_sym, E in H. cbn [orb] in H. auto.
+Qed.
+
+Lemma fix_all x : fix_spec x.
+Proof.
+  induction x as [k|n x IH|fs IH|ds] using sfix_ind'; intros defs0 t defs1 Hok Ht.
+  - cbn [fix_to_idl] in Ht. inversion Ht; subst. split; [apply ext_refl|].
+    cbn [fix_ok] in Hok. destruct (prim_size k) as [n|] eqn:Ep; [|discriminate].
+    destruct (prim_size_cases _ _ Ep) as (Hn & Hs & Hr).
+    exists 1%nat. intros defs2 _ f Hf bs rest Hl _. destruct f as [|f]; [lia|].
+    cbn [dec]. rewrite Hs, Hr, Ep.
+    rewrite take_app_n; [reflexivity|]. unfold zlen. rewrite Hl. now apply fsize_prim.
+  - cbn [fix_to_idl] in Ht. destruct (fix_to_idl x defs0) as [t' d] eqn:E. inversion Ht; subst; clear Ht.
+    cbn [fix_ok] in Hok. destruct (IH _ _ _ Hok E) as (He & F & H).
+    split; auto. exists (S (Nat.max F n)). intros defs2 He2 f Hf bs rest Hl Hv.
+    destruct f as [|f]; [lia|]. cbn [dec]. cbn [erase_fix] in Hl, Hv.
+    rewrite fsize_struct, fsizes_repeat in Hl. rewrite fvalid_struct in Hv.
+    rewrite (rep_array x (dec f defs2 t')); auto; try lia.
+    + now rewrite embed_fix_array.
+    + intros chunk r L V. apply H; auto. lia.
+  - rewrite fix_to_idl_struct in Ht. destruct (fixes_to_idl fs defs0) as [ts d] eqn:E. inversion Ht; subst; clear Ht.
+    cbn [fix_ok] in Hok. destruct (fixes_spec fs IH _ _ _ Hok E) as (He & F & H).
+    split; [eapply ext_trans; [eauto|apply ext_app]|].
+    exists (S (S F)). intros defs2 He2 f Hf bs rest Hl Hv.
+    destruct f as [|[|f]]; try lia. cbn [dec].
+    rewrite (ext_nth _ _ _ _ He2 (nth_last d (IStruct ts))).
+    cbn [erase_fix] in Hl, Hv. rewrite fsize_struct in Hl. rewrite fvalid_struct in Hv.
+    rewrite (H defs2 (ext_trans _ _ _ (ext_app d _) He2) f ltac:(lia) _ rest Hl Hv).
+    now rewrite embed_fix_struct.
+  - cbn [fix_to_idl] in Ht. inversion Ht; subst; clear Ht. split; [apply ext_app|].
+    exists 2%nat. intros defs2 He2 f Hf bs rest Hl Hv.
+    destruct f as [|[|f]]; try lia. cbn [dec].
+    rewrite (ext_nth _ _ _ _ He2 (nth_last defs0 _)).
+    cbn [erase_fix fsize fvalid] in Hl, Hv. destruct bs as [|b [|? ?]]; try discriminate.
+    change (num_width (IPrim P_U8)) with (Some 1). cbv iota beta.
+    rewrite (take_app_n 1 [b] rest eq_refl).
+    assert (Hb : le_decode [b] = b) by (cbn [le_decode]; lia).
+    rewrite Hb, (find_disc_unit _ _ Hv). cbn [embed_fix]. now rewrite Hb.
+Qed.
+
+(* ---------------------------------------------------------------------------------------------- *)
+(* sequences of items                                                                               *)
+Lemma rep_items {A} (enc : A -> list Z) (emb : A -> ival) (g : list Z -> dres) items :
+  (forall a rest, In a items -> g (enc a ++ rest) = Some (emb a, rest)) ->
+  forall k rest, (length items <= k)%nat ->
+    rep k g (zlen items) (concat (map enc items) ++ rest) = Some (map emb items, rest).
+Proof.
+  induction items as [|a items IH]; intros Hg k rest Hk.
+  - destruct k; reflexivity.
+  - destruct k as [|k]; [cbn in Hk; lia|]. cbn [rep]. rewrite zlen_cons.
+    pose proof (zlen_nonneg items) as Hn.
+    destruct (1 + zlen items <=? 0) eqn:E; [zb; lia|].
+    cbn [map concat]. rewrite <- app_assoc, (Hg a _ (or_introl eq_refl)).
+    replace (1 + zlen items - 1) with (zlen items) by lia.
+    rewrite IH; auto.
+    + intros; apply Hg; now right.
+    + cbn in Hk; lia.
+Qed.
+
+Lemma num_width_len lw : lw_ok lw = true -> num_width (len_prim lw) = Some (Z.of_nat lw).
+Proof.
+  unfold lw_ok. intros H.
+  destruct (lw =? 1)%nat eqn:E1; [apply Nat.eqb_eq in E1; subst; reflexivity|].
+  destruct (lw =? 2)%nat eqn:E2; [apply Nat.eqb_eq in E2; subst; reflexivity|].
+  destruct (lw =? 4)%nat eqn:E4; [apply Nat.eqb_eq in E4; subst; reflexivity|].
+  destruct (lw =? 8)%nat eqn:E8; [apply Nat.eqb_eq in E8; subst; reflexivity|].
+  discriminate.
+Qed.
+
+Lemma list_dec_items {A} (enc : A -> list Z) (emb : A -> ival) (g : list Z -> dres) lw items k rest :
+  lw_ok lw = true -> zlen items < 256 ^ Z.of_nat lw -> (length items <= k)%nat ->
+  (forall a rest, In a items -> g (enc a ++ rest) = Some (emb a, rest)) ->
+  list_dec k (len_prim lw) g (le_bytes lw (zlen items) ++ concat (map enc items) ++ rest)
+  = Some (IVList (map emb items), rest).
+Proof.
+  intros Hlw Hn Hk Hg. unfold list_dec. rewrite (num_width_len _ Hlw).
+  rewrite take_app_n by apply zlen_le_bytes.
+  rewrite le_decode_le_bytes by (pose proof (zlen_nonneg items); lia).
+  now rewrite (rep_items enc emb g items Hg k rest Hk).
+Qed.
+
+(* a uniform amount of fuel for finitely many items *)
+Lemma fuel_max {A} (P : A -> nat -> Prop) (l : list A) :
+  (forall a F f, P a F -> (F <= f)%nat -> P a f) ->
+  (forall a, In a l -> exists F, P a F) -> exists F, forall a, In a l -> P a F.
+Proof.
+  intros Hm. induction l as [|a l IH]; intros H.
+  - exists O. intros a [].
+  - destruct (H a (or_introl eq_refl)) as [F1 H1].
+    destruct IH as [F2 H2]; [intros; apply H; now right|].
+    exists (Nat.max F1 F2). intros b [<-|Hb].
+    + eapply Hm; eauto. lia.
+    + eapply Hm; [apply H2; auto|lia].
+Qed.
+
+(* ---------------------------------------------------------------------------------------------- *)
+(* what well-formedness gives (kept apart from the exact shape of `wf`)                             *)
+Ltac split_ands :=
+  repeat match goal with H : (_ && _) = true |- _ => apply andb_true_iff in H; destruct H end.
+
+Lemma wf_list_inv c lw v : wf (TList c lw) v = true ->
+  exists items, v = VList items /\ zlen items < 256 ^ Z.of_nat lw /\
+    Forall (fun it => length it = fsize c /\ fvalid c it = true) items.
+Proof.
+  destruct v as [bs|items|es|vs|d p]; cbn [wf]; try discriminate. intros H.
+  exists items. split; auto. split_ands.
+  match goal with H : (zlen items <? _) = true |- _ => apply Z.ltb_lt in H; split; [exact H|] end.
+  match goal with H : forallb _ items = true |- _ => rewrite forallb_forall in H; rename H into HF end.
+  apply Forall_forall. intros it Hi. specialize (HF _ Hi). split_ands.
+  match goal with H : (length it =? _)%nat = true |- _ => apply Nat.eqb_eq in H; auto end.
+Qed.
+
+Lemma wf_ulist_inv it k v : wf (TUList it k) v = true ->
+  exists items, v = VUList items /\ zlen items < U32_LIMIT /\
+    Forall (fun kv => length (fst kv) = k /\ wf it (snd kv) = true) items.
+Proof.
+  destruct v as [bs|items0|items|vs|d p]; cbn [wf]; try discriminate. intros H.
+  exists items. split; auto. split_ands.
+  match goal with H : (zlen items <? U32_LIMIT) = true |- _ => apply Z.ltb_lt in H; split; [exact H|] end.
+  match goal with H : forallb _ items = true |- _ => rewrite forallb_forall in H; rename H into HF end.
+  apply Forall_forall. intros kv Hi. specialize (HF _ Hi). split_ands.
+  match goal with H : (length (fst kv) =? _)%nat = true |- _ => apply Nat.eqb_eq in H; auto end.
+Qed.
+
+Lemma wf_struct_inv ts v : wf (TStruct ts) v = true -> exists vs, v = VStruct vs /\ wfs ts vs = true.
+Proof.
+  destruct v as [bs|items0|items|vs|d p]; cbn [wf]; try discriminate.
+  intros H. exists vs. split; auto.
+Qed.
+
+Lemma wf_struct1_inv t v : wf (TStruct [t]) v = true -> exists v1, v = VStruct [v1] /\ wf t v1 = true.
+Proof.
+  intros H. destruct (wf_struct_inv _ _ H) as (vs & -> & Hw).
+  destruct vs as [|v1 [|? ?]]; cbn [wfs] in Hw; try discriminate.
+  - exists v1. split; auto. now apply andb_true_iff in Hw as [? _].
+  - apply andb_true_iff in Hw as [_ Hw]. discriminate.
+Qed.
+
+Lemma wf_fixed_inv c v : wf (TFixed c) v = true ->
+  exists bs, v = VBytes bs /\ length bs = fsize c /\ fvalid c bs = true.
+Proof.
+  destruct v as [bs|items0|items|vs|d p]; cbn [wf]; try discriminate. intros H. exists bs. split; auto.
+  split_ands. match goal with H : (length bs =? _)%nat = true |- _ => apply Nat.eqb_eq in H end. auto.
+Qed.
+
+Lemma wf_enum_inv rw vars v : wf (TEnum rw vars) v = true ->
+  exists d p, v = VEnum d p /\ 0 <= d < 256 ^ Z.of_nat rw /\ wf_variant d p vars = true.
+Proof.
+  destruct v as [bs|items0|items|vs|d p]; try (cbn [wf]; discriminate). rewrite wf_enum. intros H.
+  exists d, p. split; auto. split_ands. zb. auto.
+Qed.
+
+(* ---------------------------------------------------------------------------------------------- *)
+(* the containers                                                                                   *)
+Definition sty_spec (s : sty) : Prop :=
+  forall last defs0 t defs1, sty_ok last s = true -> to_idl s defs0 = (t, defs1) ->
+    ext defs0 defs1 /\
+    forall defs2, ext defs1 defs2 -> forall v, wf (erase s) v = true ->
+      exists fuel, forall f, (fuel <= f)%nat -> forall rest, (last = true -> rest = []) ->
+        dec f defs2 t (encode (erase s) v ++ rest) = Some (embed s v, rest).
+
+Lemma Forall_In {A} (P : A -> Prop) l a : Forall P l -> In a l -> P a.
+Proof. intros H. rewrite Forall_forall in H. auto. Qed.
+
+Lemma concat_map_id (l : list (list Z)) : concat (map (fun x => x) l) = concat l.
+Proof. now rewrite map_id. Qed.
+
+Lemma spec_list lw x : sty_spec (SList lw x).
+Proof.
+  intros last defs0 t defs1 Hok Ht. cbn [to_idl] in Ht. cbn [sty_ok] in Hok.
+  apply andb_true_iff in Hok as [Hlw Hx].
+  destruct (fix_to_idl x defs0) as [t' d] eqn:E. inversion Ht; subst; clear Ht.
+  destruct (fix_all x _ _ _ Hx E) as (He & F & H). split; auto.
+  intros defs2 He2 v Hwf. cbn [erase] in Hwf.
+  destruct (wf_list_inv _ _ _ Hwf) as (items & -> & Hn & HF).
+  exists (S (Nat.max F (length items))). intros f Hf rest _. destruct f as [|f]; [lia|].
+  cbn [dec erase encode embed]. rewrite <- app_assoc, <- concat_map_id.
+  apply list_dec_items; auto; try lia.
+  intros a r Ha. destruct (Forall_In _ _ _ HF Ha) as [L V]. apply H; auto. lia.
+Qed.
+
+Lemma encode_struct1 t v : encode (TStruct [t]) (VStruct [v]) = encode t v.
+Proof. rewrite encode_struct. cbn [encodes]. now rewrite app_nil_r. Qed.
+
+Lemma spec_set lw k : sty_spec (SSet lw k).
+Proof.
+  intros last defs0 t defs1 Hok Ht. cbn [to_idl] in Ht. cbn [sty_ok] in Hok.
+  apply andb_true_iff in Hok as [Hlw Hx].
+  destruct (fix_to_idl k defs0) as [t' d] eqn:E. inversion Ht; subst; clear Ht.
+  destruct (fix_all k _ _ _ Hx E) as (He & F & H). split; auto.
+  intros defs2 He2 v Hwf. cbn [erase] in Hwf.
+  destruct (wf_struct1_inv _ _ Hwf) as (v1 & -> & Hw1).
+  destruct (wf_list_inv _ _ _ Hw1) as (items & -> & Hn & HF).
+  exists (S (Nat.max F (length items))). intros f Hf rest _. destruct f as [|f]; [lia|].
+  cbn [erase]. rewrite encode_struct1. cbn [dec encode embed]. rewrite <- app_assoc, <- concat_map_id.
+  apply list_dec_items; auto; try lia.
+  intros a r Ha. destruct (Forall_In _ _ _ HF Ha) as [L V]. apply H; auto. lia.
+Qed.
+
+Lemma spec_map lw k vx : sty_spec (SMap lw k vx).
+Proof.
+  intros last defs0 t defs1 Hok Ht. cbn [to_idl] in Ht. cbn [sty_ok] in Hok.
+  apply andb_true_iff in Hok as [Hok Hv]. apply andb_true_iff in Hok as [Hlw Hk].
+  destruct (fix_to_idl k defs0) as [kt d1] eqn:E1. destruct (fix_to_idl vx d1) as [vt d2] eqn:E2.
+  inversion Ht; subst; clear Ht.
+  destruct (fix_all k _ _ _ Hk E1) as (He1 & F1 & H1).
+  destruct (fix_all vx _ _ _ Hv E2) as (He2 & F2 & H2).
+  split; [eapply ext_trans; eauto|].
+  intros defs2 He v Hwf. cbn [erase] in Hwf.
+  destruct (wf_struct1_inv _ _ Hwf) as (v1 & -> & Hw1).
+  destruct (wf_list_inv _ _ _ Hw1) as (items & -> & Hn & HF).
+  exists (S (Nat.max (Nat.max F1 F2) (length items))). intros f Hf rest _. destruct f as [|f]; [lia|].
+  cbn [erase]. rewrite encode_struct1. cbn [dec encode embed]. rewrite <- app_assoc, <- concat_map_id.
+  apply list_dec_items; auto; try lia.
+  intros a r Ha. destruct (Forall_In _ _ _ HF Ha) as [L V].
+  rewrite fsize_struct in L. rewrite fvalid_struct in V. cbn [fsizes fvalids] in L, V.
+  apply andb_true_iff in V as [V1 V2]. apply andb_true_iff in V2 as [V2 _].
+  set (sk := fsize (erase_fix k)) in *.
+  destruct (split_at sk a ltac:(lia)) as (Hs & L1 & L2).
+  rewrite firstn_all2 in V2 by lia.
+  unfold pair_dec. rewrite Hs at 1. rewrite <- app_assoc.
+  rewrite (H1 defs2 (ext_trans _ _ _ He2 He) f ltac:(lia) _ _ L1 V1).
+  assert (L3 : length (skipn sk a) = fsize (erase_fix vx)) by lia.
+  rewrite (H2 defs2 He f ltac:(lia) _ r L3 V2). reflexivity.
+Qed.
+
+Lemma zlen_concat_ones (items : list (list Z)) :
+  Forall (fun it => length it = 1%nat) items -> zlen (concat items) = zlen items.
+Proof.
+  induction 1 as [|a l Ha _ IH]; auto. cbn [concat]. rewrite zlen_app, zlen_cons, IH. unfold zlen. rewrite Ha. lia.
+Qed.
+
+Lemma spec_string : sty_spec SString.
+Proof.
+  intros last defs0 t defs1 _ Ht. cbn [to_idl] in Ht. inversion Ht; subst; clear Ht.
+  split; [apply ext_refl|]. intros defs2 _ v Hwf. cbn [erase] in Hwf.
+  destruct (wf_struct1_inv _ _ Hwf) as (v1 & -> & Hw1).
+  destruct (wf_list_inv _ _ _ Hw1) as (items & -> & Hn & HF).
+  exists 1%nat. intros f Hf rest _. destruct f as [|f]; [lia|].
+  cbn [erase]. rewrite encode_struct1. cbn [dec encode embed].
+  change (P_STRING =? P_STRING) with true. cbv iota. rewrite <- app_assoc.
+  rewrite take_app_n by apply zlen_le_bytes.
+  rewrite le_decode_le_bytes by (pose proof (zlen_nonneg items); lia).
+  rewrite take_app_n; [reflexivity|].
+  apply zlen_concat_ones. eapply Forall_impl; [|exact HF]. cbn [fsize]. intros a [L _]. exact L.
+Qed.
+
+Lemma spec_rem : sty_spec SRem.
+Proof.
+  intros last defs0 t defs1 Hok Ht. cbn [to_idl] in Ht. inversion Ht; subst; clear Ht. cbn [sty_ok] in Hok.
+  split; [apply ext_refl|]. intros defs2 _ v Hwf.
+  destruct v as [bs| | | |]; cbn [erase wf] in Hwf; try discriminate.
+  exists 1%nat. intros f Hf rest Hr. rewrite (Hr Hok). destruct f as [|f]; [lia|].
+  cbn [erase encode embed dec]. rewrite app_nil_r. reflexivity.
+Qed.
+
+(* the offset table of a canonical encoding is gap-free: entry i is the sum of the sizes before it, so reading
+   the elements one after the other (what an IDL client does) finds each element at its recorded offset *)
+Lemma offsets_from_length b sizes : length (offsets_from b sizes) = length sizes.
+Proof. revert b; induction sizes as [|s r IH]; intros b; cbn [offsets_from length]; auto. Qed.
+
+Lemma offsets_gap_free b sizes i o :
+  nth_error (offsets_from b sizes) i = Some o -> o = b + zsum (firstn i sizes).
+Proof.
+  revert b i. induction sizes as [|s r IH]; intros b i H.
+  - destruct i; discriminate.
+  - destruct i as [|i]; cbn [offsets_from nth_error firstn zsum] in *.
+    + inversion H. lia.
+    + rewrite (IH _ _ H). lia.
+Qed.
+
+Lemma dec_u32 f defs bs rest : (1 <= f)%nat -> length bs = 4%nat ->
+  dec f defs (IPrim P_U32) (bs ++ rest) = Some (IVBytes bs, rest).
+Proof.
+  intros Hf Hl. destruct f as [|f]; [lia|]. cbn [dec].
+  change (P_U32 =? P_STRING) with false. change (P_U32 =? P_REMAINING) with false.
+  change (prim_size P_U32) with (Some 4). cbv iota.
+  rewrite take_app_n; auto. unfold zlen. now rewrite Hl.
+Qed.
+
+Definition item_sizes (it : sty) (items : list (list Z * val)) : list Z :=
+  map (fun kv => zlen (encode (erase it) (snd kv))) items.
+
+Lemma ulist_dec (it : sty) (ksz : nat) (ot : ity) (emb_off : Z * list Z -> ival) t' defs2 items F Fo f rest :
+  zlen items < U32_LIMIT ->
+  (forall kv, In kv items -> length (fst kv) = ksz) ->
+  (forall ok r f, (Fo <= f)%nat -> length (snd ok) = ksz ->
+     dec f defs2 ot ((le_bytes 4 (fst ok) ++ snd ok) ++ r) = Some (emb_off ok, r)) ->
+  (forall kv, In kv items -> forall f, (F <= f)%nat -> forall r,
+     dec f defs2 t' (encode (erase it) (snd kv) ++ r) = Some (embed it (snd kv), r)) ->
+  (S (Nat.max (Nat.max F Fo) (Nat.max (length items) 1)) <= f)%nat ->
+  dec f defs2 (IUList (IPrim P_U32) ot t') (encode (TUList (erase it) ksz) (VUList items) ++ rest) =
+  Some (IVStruct [u32v (zsum (item_sizes it items));
+                  IVList (map emb_off (combine (offsets_from 0 (item_sizes it items)) (map fst items)));
+                  IVList (map (fun kv => embed it (snd kv)) items)], rest).
+Proof.
+  intros Hn Hk Ho Hi Hf. destruct f as [|f]; [lia|].
+  cbn [encode dec]. rewrite map_map. fold (item_sizes it items).
+  set (sizes := item_sizes it items).
+  repeat rewrite <- app_assoc.
+  rewrite dec_u32 by (try lia; apply le_bytes_length).
+  assert (Hlen : length (combine (offsets_from 0 sizes) (map fst items)) = length items).
+  { rewrite combine_length, offsets_from_length, map_length. unfold sizes, item_sizes. rewrite map_length. lia. }
+  unfold offset_entries.
+  replace (zlen items) with (zlen (combine (offsets_from 0 sizes) (map fst items))) at 1
+    by (unfold zlen; now rewrite Hlen).
+  change (IPrim P_U32) with (len_prim 4).
+  rewrite (list_dec_items (fun ok : Z * list Z => le_bytes 4 (fst ok) ++ snd ok) emb_off).
+  - rewrite (list_dec_items (fun kv : list Z * val => encode (erase it) (snd kv)) (fun kv => embed it (snd kv))).
+    + reflexivity.
+    + reflexivity.
+    + change (256 ^ Z.of_nat 4) with U32_LIMIT. exact Hn.
+    + lia.
+    + intros a r Ha. apply Hi; auto. lia.
+  - reflexivity.
+  - unfold zlen. rewrite Hlen. change (256 ^ Z.of_nat 4) with U32_LIMIT. exact Hn.
+  - lia.
+  - intros [o key] r Hin. apply Ho; [lia|]. cbn [snd].
+    apply in_combine_r in Hin. apply in_map_iff in Hin as (kv & <- & Hkv). auto.
+Qed.
+
+Lemma map_fst_combine {A B} (a : list A) (b : list B) : length a = length b -> map fst (combine a b) = a.
+Proof. revert b; induction a as [|x a IH]; intros [|y b] H; cbn in *; try lia; auto. f_equal. apply IH. lia. Qed.
+
+Lemma spec_ulist it : sty_spec it -> sty_spec (SUList it).
+Proof.
+  intros IH last defs0 t defs1 Hok Ht. cbn [to_idl] in Ht. cbn [sty_ok] in Hok.
+  destruct (to_idl it defs0) as [t' d] eqn:E. inversion Ht; subst; clear Ht.
+  destruct (IH false _ _ _ Hok E) as (He & H). split; auto.
+  intros defs2 He2 v Hwf. cbn [erase] in Hwf.
+  destruct (wf_ulist_inv _ _ _ Hwf) as (items & -> & Hn & HF).
+  destruct (fuel_max (fun kv F => forall f, (F <= f)%nat -> forall r,
+              dec f defs2 t' (encode (erase it) (snd kv) ++ r) = Some (embed it (snd kv), r)) items) as [F HFu].
+  { intros a F f Hp Hle f' Hf' r. apply Hp. lia. }
+  { intros kv Hin. destruct (Forall_In _ _ _ HF Hin) as [_ Hw].
+    destruct (H defs2 He2 (snd kv) Hw) as [F0 H0]. exists F0. intros f Hf r. apply H0; auto. discriminate. }
+  exists (S (Nat.max (Nat.max F 1) (Nat.max (length items) 1))). intros f Hf rest _.
+  cbn [erase embed].
+  rewrite (ulist_dec it 0 (IPrim P_U32) (fun ok => u32v (fst ok)) t' defs2 items F 1%nat f rest).
+  - fold (item_sizes it items). repeat f_equal.
+    rewrite <- (map_map fst u32v). rewrite map_fst_combine; auto.
+    rewrite offsets_from_length, map_length. unfold item_sizes. apply map_length.
+  - exact Hn.
+  - intros kv Hin. now destruct (Forall_In _ _ _ HF Hin).
+  - intros ok r f' Hf' Hl. destruct (snd ok); [|discriminate]. rewrite app_nil_r.
+    apply dec_u32; [lia|apply le_bytes_length].
+  - exact HFu.
+  - lia.
+Qed.
+
+(* Pod keys: every bit pattern is valid *)
+Lemma fvalids_repeat_pod c n : (forall bs, fvalid c bs = true) -> forall bs, fvalids (repeat c n) bs = true.
+Proof. intros H. induction n as [|n IH]; intros bs; cbn [repeat fvalids]; auto. now rewrite H, IH. Qed.
+
+Lemma pod_valid x : fix_pod x = true -> forall bs, fvalid (erase_fix x) bs = true.
+Proof.
+  induction x as [k|n x IH|fs IH|ds] using sfix_ind'; cbn [fix_pod]; intros Hp bs.
+  - cbn [erase_fix]. apply negb_true_iff in Hp. rewrite Hp. reflexivity.
+  - cbn [erase_fix]. rewrite fvalid_struct. apply fvalids_repeat_pod. auto.
+  - cbn [erase_fix]. rewrite fvalid_struct. revert bs.
+    induction IH as [|y l Hy _ IHl]; intros bs; cbn [map fvalids]; auto.
+    cbn [forallb] in Hp. apply andb_true_iff in Hp as [Hp1 Hp2]. now rewrite Hy, IHl.
+  - discriminate.
+Qed.
+
+Lemma spec_umap k it : sty_spec it -> sty_spec (SUMap k it).
+Proof.
+  intros IH last defs0 t defs1 Hok Ht. cbn [to_idl] in Ht. cbn [sty_ok] in Hok.
+  apply andb_true_iff in Hok as [Hok Hit]. apply andb_true_iff in Hok as [Hk Hpod].
+  destruct (to_idl it defs0) as [t' d1] eqn:E1. destruct (fix_to_idl k d1) as [kt d2] eqn:E2.
+  inversion Ht; subst; clear Ht.
+  destruct (IH false _ _ _ Hit E1) as (He1 & H).
+  destruct (fix_all k _ _ _ Hk E2) as (He2 & Fk & Hkd).
+  split; [eapply ext_trans; eauto|].
+  intros defs2 He v Hwf. cbn [erase] in Hwf.
+  destruct (wf_struct1_inv _ _ Hwf) as (v1 & -> & Hw1).
+  destruct (wf_ulist_inv _ _ _ Hw1) as (items & -> & Hn & HF).
+  destruct (fuel_max (fun kv F => forall f, (F <= f)%nat -> forall r,
+              dec f defs2 t' (encode (erase it) (snd kv) ++ r) = Some (embed it (snd kv), r)) items) as [F HFu].
+  { intros a F f Hp Hle f' Hf' r. apply Hp. lia. }
+  { intros kv Hin. destruct (Forall_In _ _ _ HF Hin) as [_ Hw].
+    destruct (H defs2 (ext_trans _ _ _ He2 He) (snd kv) Hw) as [F0 H0]. exists F0. intros f Hf r. apply H0; auto. discriminate. }
+  exists (S (Nat.max (Nat.max F (S (S Fk))) (Nat.max (length items) 1))). intros f Hf rest _.
+  cbn [erase]. rewrite encode_struct1. cbn [embed].
+  rewrite (ulist_dec it (fsize (erase_fix k)) (IStruct [IPrim P_U32; kt])
+             (fun ok => IVStruct [u32v (fst ok); embed_fix k (snd ok)]) t' defs2 items F (S (S Fk)) f rest).
+  - reflexivity.
+  - exact Hn.
+  - intros kv Hin. now destruct (Forall_In _ _ _ HF Hin).
+  - intros ok r f' Hf' Hl. destruct f' as [|f']; [lia|]. cbn [dec map seq].
+    rewrite <- app_assoc. rewrite dec_u32 by (try lia; apply le_bytes_length).
+    rewrite (Hkd defs2 He f' ltac:(lia) (snd ok) r Hl (pod_valid _ Hpod _)). reflexivity.
+  - exact HFu.
+  - lia.
+Qed.
+
+(* ---------------------------------------------------------------------------------------------- *)
+(* generated structs                                                                                *)
+Lemma seq_app a b bs :
+  seq (a ++ b) bs =
+  match seq a bs with
+  | Some (v1, r1) => match seq b r1 with Some (v2, r2) => Some (v1 ++ v2, r2) | None => None end
+  | None => None
+  end.
+Proof.
+  revert bs. induction a as [|f a IH]; intros bs; cbn [app seq].
+  - destruct (seq b bs) as [[? ?]|]; auto.
+  - destruct (f bs) as [[v r1]|]; auto. rewrite IH.
+    destruct (seq a r1) as [[v1 r2]|]; auto. destruct (seq b r2) as [[v2 r3]|]; auto.
+Qed.
+
+Lemma stys_spec fs : Forall sty_spec fs ->
+  forall last defs0 ts defs1, stys_ok last fs = true -> stys_to_idl fs defs0 = (ts, defs1) ->
+    ext defs0 defs1 /\
+    forall defs2, ext defs1 defs2 -> forall vs, wfs (map erase fs) vs = true ->
+      exists fuel, forall f, (fuel <= f)%nat -> forall rest, (last = true -> rest = []) ->
+        seq (map (dec f defs2) ts) (encodes (map erase fs) vs ++ rest) = Some (embeds fs vs, rest).
+Proof.
+  induction 1 as [|s fs Hs _ IH]; intros last defs0 ts defs1 Hok Ht.
+  - cbn [stys_to_idl] in Ht. inversion Ht; subst. split; [apply ext_refl|].
+    intros defs2 _ vs Hw. exists O. intros f _ rest _.
+    destruct vs; cbn [map wfs] in Hw; [|discriminate]. reflexivity.
+  - cbn [stys_to_idl] in Ht.
+    destruct (to_idl s defs0) as [t d1] eqn:E1. destruct (stys_to_idl fs d1) as [ts' d2] eqn:E2.
+    inversion Ht; subst; clear Ht.
+    assert (Hoks : exists l1, sty_ok l1 s = true /\ stys_ok last fs = true /\ (l1 = true -> last = true /\ fs = [])).
+    { cbn [stys_ok] in Hok. destruct fs as [|g fs'].
+      - exists last. repeat split; auto.
+      - apply andb_true_iff in Hok as [H1 H2]. exists false. repeat split; auto; discriminate. }
+    destruct Hoks as (l1 & Hok1 & Hok2 & Hl1).
+    destruct (Hs l1 _ _ _ Hok1 E1) as (He1 & H1).
+    destruct (IH last _ _ _ Hok2 E2) as (He2 & H2).
+    split; [eapply ext_trans; eauto|].
+    intros defs2 He vs Hw. destruct vs as [|v vs]; cbn [map wfs] in Hw; [discriminate|].
+    apply andb_true_iff in Hw as [Hw1 Hw2].
+    destruct (H1 defs2 (ext_trans _ _ _ He2 He) v Hw1) as [F1 G1].
+    destruct (H2 defs2 He vs Hw2) as [F2 G2].
+    exists (Nat.max F1 F2). intros f Hf rest Hr.
+    cbn [map encodes seq embeds]. rewrite <- app_assoc.
+    rewrite (G1 f ltac:(lia)).
+    + rewrite (G2 f ltac:(lia) rest Hr). reflexivity.
+    + intros Hl. destruct (Hl1 Hl) as [Hlast ->]. destruct vs; cbn [map wfs] in Hw2; [|discriminate].
+      cbn [map encodes app]. auto.
+Qed.
+
+Lemma spec_struct sized fs : Forall sty_spec fs -> sty_spec (SStruct sized fs).
+Proof.
+  intros IH last defs0 t defs1 Hok Ht. rewrite to_idl_struct in Ht. rewrite sty_ok_struct in Hok.
+  apply andb_true_iff in Hok as [Hsz Hfs].
+  destruct (fixes_to_idl sized defs0) as [sts d1] eqn:E1. destruct (stys_to_idl fs d1) as [uts d2] eqn:E2.
+  inversion Ht; subst; clear Ht.
+  assert (Hall : Forall fix_spec sized) by (apply Forall_forall; intros; apply fix_all).
+  destruct (fixes_spec sized Hall _ _ _ Hsz E1) as (He1 & F1 & H1).
+  destruct (stys_spec fs IH last _ _ _ Hfs E2) as (He2 & H2).
+  split; [eapply ext_trans; [eapply ext_trans; eauto|apply ext_app]|].
+  intros defs2 He v Hwf.
+  assert (Hd2 : ext d2 defs2) by (eapply ext_trans; [apply ext_app|eauto]).
+  assert (Hnth : nth_error defs2 (length d2) = Some (IStruct (sts ++ uts)))
+    by (eapply ext_nth; [exact He|apply nth_last]).
+  destruct sized as [|x sized'].
+  - cbn [fixes_to_idl] in E1. inversion E1; subst; clear E1.
+    cbn [erase app] in *. destruct (wf_struct_inv _ _ Hwf) as (vs & -> & Hw).
+    destruct (H2 defs2 Hd2 vs Hw) as [F2 G2].
+    exists (S (S F2)). intros f Hf rest Hr. destruct f as [|[|f]]; try lia.
+    cbn [dec]. rewrite Hnth. rewrite encode_struct, embed_struct. cbn [app].
+    rewrite (G2 f ltac:(lia) rest Hr). reflexivity.
+  - remember (x :: sized') as sz eqn:Esz.
+    assert (Her : erase (SStruct sz fs) = TStruct (TFixed (FStruct (map erase_fix sz)) :: map erase fs))
+      by (subst sz; reflexivity).
+    rewrite Her in *. destruct (wf_struct_inv _ _ Hwf) as (vs & -> & Hw).
+    destruct vs as [|v0 vr]; cbn [wfs] in Hw; [discriminate|].
+    apply andb_true_iff in Hw as [Hw0 Hwr].
+    destruct (wf_fixed_inv _ _ Hw0) as (sb & -> & Lsb & Vsb).
+    rewrite fsize_struct in Lsb. rewrite fvalid_struct in Vsb.
+    destruct (H2 defs2 Hd2 vr Hwr) as [F2 G2].
+    exists (S (S (Nat.max F1 F2))). intros f Hf rest Hr. destruct f as [|[|f]]; try lia.
+    cbn [dec]. rewrite Hnth. rewrite encode_struct. cbn [encodes encode].
+    rewrite map_app, seq_app, <- app_assoc.
+    rewrite (H1 defs2 (ext_trans _ _ _ He2 Hd2) f ltac:(lia) sb _ Lsb Vsb).
+    rewrite (G2 f ltac:(lia) rest Hr).
+    rewrite embed_struct. subst sz. reflexivity.
+Qed.
+
+(* ---------------------------------------------------------------------------------------------- *)
+(* generated enums                                                                                  *)
+Definition erase_variants (vs : list (Z * option sty)) : list (Z * ty) :=
+  map (fun dv => (fst dv, match snd dv with Some t => erase t | None => TStruct [] end)) vs.
+
+Lemma le_decode_one d : le_decode [d] = d.
+Proof. cbn [le_decode]. lia. Qed.
+
+Lemma variants_spec vs : Forall (fun dv => optP sty_spec (snd dv)) vs ->
+  forall last defs0 ivs defs1, variants_ok last vs = true -> variants_to_idl vs defs0 = (ivs, defs1) ->
+    ext defs0 defs1 /\
+    forall defs2, ext defs1 defs2 -> forall d p, wf_variant d p (erase_variants vs) = true ->
+      (find_disc d ivs = Some None /\ enc_variant d p (erase_variants vs) = [] /\ embed_variant d p vs = None) \/
+      (exists it, find_disc d ivs = Some (Some (IStruct [it])) /\
+         exists fuel, forall f, (fuel <= f)%nat -> forall rest, (last = true -> rest = []) ->
+           exists pv, embed_variant d p vs = Some (IVStruct [pv]) /\
+             dec f defs2 it (enc_variant d p (erase_variants vs) ++ rest) = Some (pv, rest)).
+Proof.
+  induction 1 as [|[dv o] vs Hs _ IH]; intros last defs0 ivs defs1 Hok Ht.
+  - cbn [variants_to_idl] in Ht. inversion Ht; subst. split; [apply ext_refl|].
+    intros defs2 _ d p Hw. discriminate.
+  - cbn [snd] in Hs. destruct o as [t|].
+    + cbn [variants_to_idl variants_ok] in Ht, Hok. apply andb_true_iff in Hok as [Hok1 Hok2].
+      destruct (to_idl t defs0) as [it d1] eqn:E1. destruct (variants_to_idl vs d1) as [ivs' d2] eqn:E2.
+      inversion Ht; subst; clear Ht.
+      destruct (Hs last _ _ _ Hok1 E1) as (He1 & H1). destruct (IH last _ _ _ Hok2 E2) as (He2 & H2).
+      split; [eapply ext_trans; eauto|].
+      intros defs2 He d p Hw. cbn [erase_variants map fst snd wf_variant enc_variant embed_variant find_disc] in *.
+      rewrite le_decode_one. rewrite (Z.eqb_sym dv d).
+      destruct (d =? dv) eqn:Ed.
+      * right. exists it. split; auto.
+        destruct (H1 defs2 (ext_trans _ _ _ He2 He) p Hw) as [F G].
+        exists F. intros f Hf rest Hr. exists (embed t p). split; auto.
+      * fold (erase_variants vs) in *. apply (H2 defs2 He d p Hw).
+    + cbn [variants_to_idl variants_ok] in Ht, Hok.
+      destruct (variants_to_idl vs defs0) as [ivs' d2] eqn:E2. inversion Ht; subst; clear Ht.
+      destruct (IH last _ _ _ Hok E2) as (He2 & H2). split; auto.
+      intros defs2 He d p Hw. cbn [erase_variants map fst snd wf_variant enc_variant embed_variant find_disc] in *.
+      rewrite le_decode_one. rewrite (Z.eqb_sym dv d).
+      destruct (d =? dv) eqn:Ed.
+      * left. repeat split; auto.
+        destruct (wf_struct_inv _ _ Hw) as (ps & -> & Hps). now rewrite encode_struct.
+      * fold (erase_variants vs) in *. apply (H2 defs2 He d p Hw).
+Qed.
+
+Lemma spec_enum vs : Forall (fun dv => optP sty_spec (snd dv)) vs -> sty_spec (SEnum vs).
+Proof.
+  intros IH last defs0 t defs1 Hok Ht. rewrite to_idl_enum in Ht. rewrite sty_ok_enum in Hok.
+  apply andb_true_iff in Hok as [_ Hvo].
+  destruct (variants_to_idl vs defs0) as [ivs d] eqn:E. inversion Ht; subst; clear Ht.
+  destruct (variants_spec vs IH last _ _ _ Hvo E) as (He & H).
+  split; [eapply ext_trans; [eauto|apply ext_app]|].
+  intros defs2 He2 v Hwf.
+  assert (Hd : ext d defs2) by (eapply ext_trans; [apply ext_app|eauto]).
+  assert (Hnth : nth_error defs2 (length d) = Some (IEnum (IPrim P_U8) ivs))
+    by (eapply ext_nth; [exact He2|apply nth_last]).
+  change (erase (SEnum vs)) with (TEnum 1 (erase_variants vs)) in *.
+  destruct (wf_enum_inv _ _ _ Hwf) as (dd & p & -> & Hdd & Hw).
+  assert (Hhead : forall rest0, take 1 ((le_bytes 1 dd ++ rest0)) = Some (le_bytes 1 dd, rest0))
+    by (intros; apply take_app_n; apply zlen_le_bytes).
+  assert (Hdec : le_decode (le_bytes 1 dd) = dd) by (apply le_decode_le_bytes; exact Hdd).
+  destruct (H defs2 Hd dd p Hw) as [(Hfd & Henc & Hemb)|(it & Hfd & F & G)].
+  - exists 2%nat. intros f Hf rest _. destruct f as [|[|f]]; try lia.
+    cbn [dec]. rewrite Hnth. change (num_width (IPrim P_U8)) with (Some 1). cbv iota beta.
+    rewrite encode_enum, <- app_assoc, Hhead, Hdec, Hfd, Henc, embed_enum, Hemb. reflexivity.
+  - exists (S (S F)). intros f Hf rest Hr. destruct f as [|[|f]]; try lia.
+    cbn [dec]. rewrite Hnth. change (num_width (IPrim P_U8)) with (Some 1). cbv iota beta.
+    rewrite encode_enum, <- app_assoc, Hhead, Hdec, Hfd.
+    destruct (G f ltac:(lia) rest Hr) as (pv & Hemb & Hpv).
+    cbn [map seq]. rewrite Hpv, embed_enum, Hemb. reflexivity.
+Qed.
+
+Lemma sty_all s : sty_spec s.
+Proof.
+  induction s using sty_ind'.
+  - apply spec_list.
+  - apply spec_map.
+  - apply spec_set.
+  - apply spec_string.
+  - apply spec_rem.
+  - now apply spec_ulist.
+  - now apply spec_umap.
+  - now apply spec_struct.
+  - now apply spec_enum.
+Qed.
+
+(* ---------------------------------------------------------------------------------------------- *)
+(* the theorem: every source-level shape, every well-formed value                                   *)
+Theorem idl_layout_faithful s v :
+  sty_ok true s = true -> wf (erase s) v = true ->
+  idl_decodes (type_defs s) (type_to_idl s) (encode (erase s) v) (embed s v) [].
+Proof.
+  intros Hok Hwf. unfold type_defs, type_to_idl, idl_decodes.
+  destruct (to_idl s []) as [t defs] eqn:E. cbn [fst snd].
+  destruct (sty_all s true [] t defs Hok E) as (_ & H).
+  destruct (H defs (ext_refl defs) v Hwf) as [F G].
+  exists F. intros f Hf. specialize (G f Hf [] (fun _ => eq_refl)). now rewrite app_nil_r in G.
+Qed.
+
+(* the same inside any larger definition table and followed by any bytes when the shape has no tail RemainingBytes
+   (how the type sits inside an account: after the discriminant, before nothing) *)
+Theorem idl_layout_faithful_prefix s v defs0 rest :
+  sty_ok false s = true -> wf (erase s) v = true ->
+  idl_decodes (snd (to_idl s defs0)) (fst (to_idl s defs0)) (encode (erase s) v ++ rest) (embed s v) rest.
+Proof.
+  intros Hok Hwf. unfold idl_decodes.
+  destruct (to_idl s defs0) as [t defs] eqn:E. cbn [fst snd].
+  destruct (sty_all s false defs0 t defs Hok E) as (_ & H).
+  destruct (H defs (ext_refl defs) v Hwf) as [F G].
+  exists F. intros f Hf. apply G; auto. discriminate.
+Qed.
+
+(* gap-freeness of the canonical offsets (what makes the sequential reading agree with the offset table) *)
+Theorem encode_offsets_gap_free it items i o :
+  nth_error (offsets_from 0 (item_sizes it items)) i = Some o ->
+  o = zsum (firstn i (item_sizes it items)).
+Proof. intros H. rewrite (offsets_gap_free _ _ _ _ H). lia. Qed.
